@@ -268,10 +268,10 @@ func (w *worker) run(job *Job, timeout time.Duration) (res *Result, crashed bool
 type Finding struct {
 	Property  string `json:"property"`
 	Kind      string `json:"kind"`
-	Signature string `json:"signature"` // substring of the violation signature
+	Signature string `json:"signature"`        // substring of the violation signature
 	Detail    string `json:"detail,omitempty"` // optional: substring that must occur in the violation detail
-	Trigger   string `json:"trigger"`   // the specific input / call site / history that fails
-	Status    string `json:"status"`    // open | fixed
+	Trigger   string `json:"trigger"`          // the specific input / call site / history that fails
+	Status    string `json:"status"`           // open | fixed
 	Commit    string `json:"commit,omitempty"`
 }
 
